@@ -213,6 +213,35 @@ func runC03(r *vhlib.Run) {
 			}
 		}
 	}
+	// a later member of a concatenation cut short: at every byte of small multi-block members,
+	// and - for many more members - exactly where a block or the footer starts on a byte
+	// boundary (only there can "end of input" be mistaken for a clean end)
+	{
+		first := ref.BZCompress(bzPlain(rng, 100), 1+rng.Intn(9))
+		nm := 40
+		if !r.Quick() {
+			nm = 400
+		}
+		blkMagic := []byte{0x31, 0x41, 0x59, 0x26, 0x53, 0x59}
+		endMagic := []byte{0x17, 0x72, 0x45, 0x38, 0x50, 0x90}
+		for i := 0; i < nm; i++ {
+			second := gen.BzMultiBlock(rng, 2+rng.Intn(3)).Data
+			if lout, ok, _, _, _ := ref.BZDecompress(second, 1<<20); !ok || len(lout) == 0 {
+				continue
+			}
+			if i < 3 {
+				for k := 1; k < len(second); k++ {
+					c03Check(r, catBytes(first, second[:k]), "concat-second-member-cut", len(second) < 1500)
+				}
+				continue
+			}
+			for k := 5; k+6 <= len(second); k++ {
+				if bytes.Equal(second[k:k+6], blkMagic) || bytes.Equal(second[k:k+6], endMagic) {
+					c03Check(r, catBytes(first, second[:k]), "concat-second-member-cut-at-aligned-boundary", true)
+				}
+			}
+		}
+	}
 	// members with different block sizes, the larger ones later: a block of a later member
 	// may hold more symbols than any block of the first member could
 	{
